@@ -20,18 +20,13 @@ import MdModel.Json
 import MdModel.Gen.JsonSchema
 namespace MdModel.Json
 open MdModel
-open MdModel.Gen.JsonSchema (Leaf)
+open MdModel.Gen.JsonSchema (Leaf Refinement)
 
 /-! ## 1. the hand-written `Ty` in the document's vocabulary -/
 
-/-- what `check` enforces for a member BEYOND the document's leaf type -/
-inductive Refinement where
-  | plain
-  | onlyTrue         -- `Ty.boolTrue`: a `<bool>` that is `true` when present
-  | padded           -- `Ty.hexA`: a `<hexstring>` with at least the platform's digit count
-  | sortedNonEmpty   -- `Ty.offsets`: non-empty, strictly ascending array
-  | kindCoupled      -- `Ty.adjusted`: `kind` decides which of `address` / `offset` is present
-  deriving DecidableEq, Repr
+/-! `Refinement` (generated file): what `check` enforces for a member BEYOND the document's leaf
+    type — `onlyTrue` = `Ty.boolTrue`, `padded` = `Ty.hexA`, `sortedNonEmpty` = `Ty.offsets`,
+    `kindCoupled` = `Ty.adjusted`. -/
 
 /-- json-schema.md: `"registers": { "some_register_name": <hexstring>, }` — the document writes
     the open mapping "register name ↦ hexstring" (`Ty.regs`) with this placeholder member. -/
@@ -78,7 +73,7 @@ structure Difference where
   path : String
   hand : Leaf
   doc : Option Leaf
-  deriving DecidableEq, Repr
+  deriving Repr
 
 /-- document: `"status": "OK",` under the comment "Either OK or an Error we encountered while
     trying to generate this report. […] any value other than "OK" will imply the absence of all
